@@ -58,6 +58,9 @@ type Grammar struct {
 	Toks  []string // token names (upper case); literal is lower-cased name unless Lits set
 	Lits  []string // optional literal per token
 	Rules []Rule   // Rules[0] is @start
+	// AliasRefs makes the parser section refer to tokens by their literal
+	// ('x') instead of by name (X).
+	AliasRefs bool
 }
 
 func (g *Grammar) Lit(i int) string {
@@ -70,6 +73,9 @@ func (g *Grammar) Lit(i int) string {
 func (g *Grammar) symText(s Sym) string {
 	switch s.K {
 	case T:
+		if g.AliasRefs {
+			return "'" + g.Lit(s.I) + "'"
+		}
 		return g.Toks[s.I]
 	case N:
 		return g.Rules[s.I].Name
@@ -204,7 +210,7 @@ func (g *Grammar) CarrierUserGo(bounds bool) string {
 
 // Clone deep-copies g.
 func (g *Grammar) Clone() *Grammar {
-	c := &Grammar{Toks: append([]string(nil), g.Toks...)}
+	c := &Grammar{Toks: append([]string(nil), g.Toks...), AliasRefs: g.AliasRefs}
 	if g.Lits != nil {
 		c.Lits = append([]string(nil), g.Lits...)
 	}
